@@ -238,6 +238,10 @@ def ctor_cases():
     if hlib.QUICK:
         r.shuffle(combos)
         combos = combos[:120]
+    # empty bound lists (a falsy argument: `x or default` would swallow it), always run, after the sampled combinations
+    for kind in ('search', 'hyper', 'tree'):
+        nd = 2 if kind == 'hyper' else 1
+        combos += [(kind, 2, 1, nd, 2, -1, 0), (kind, 2, 1, nd, 2, 0, -1), (kind, 1, 1, nd, 1, -1, -1), (kind, 2, 2, nd, 2, -2, 0), (kind, 2, 2, nd, 2, 0, -2)]
     for (kind, na, nv, nd, ni, dl, du) in combos:
         nvi = nv if isinstance(nv, int) and not isinstance(nv, bool) and nv > 0 else 2
         lb = [r.choice([-10.0, 0.0, -1e-3, 5.0, -1e6]) for _ in range(max(0, nvi + dl))]
